@@ -22,6 +22,11 @@ package channeldb
 //@   loop * havoc
 //@   loop 0 step len(heightDiffs[addRef.Height]) == prevheap(len(heightDiffs[addRef.Height])) + 1
 //@   site call ackAddHtlcsAtHeight: assert arg(0) == sourceBkt && arg(1) == height && arg(2) == indexes
+//@   site call ToUint64: assert arg(0) == p.source
+//@   site call makeLogKey: assert arg(0) == ret(ToUint64)
+//@   site mapupdate heightDiffs: assert arg(key) == addRef.Height
+//@   site lookup heightDiffs: assert arg(key) == addRef.Height
+//@   site call ackAddHtlcsAtHeight as bucket: assert arg(sourceBkt) == ret(NestedReadWriteBucket) && ret(NestedReadWriteBucket) != nil
 //@
 //@ func (c *ChannelStateDB) UpdateChannelCommitment$1
 //@   props C03 C02
@@ -78,3 +83,53 @@ package channeldb
 //@   site call Get: assert arg(key) == retn(confHintKey, 0) && retn(confHintKey, 1) == nil
 //@   site call ReadElement: assert ret(Get) != nil && called(NewReader)
 //@   site call NewReader: assert arg(0) == ret(Get)
+//@
+//@ // ---- C08: a settle/fail is acknowledged in the forwarding package of ITS source channel and height only
+//@ func ackSettleFails
+//@   props C08
+//@   loop * havoc
+//@   site mapupdate destHeights: assert arg(key) == settleFailRef.Height && has(destHeightDiffs, settleFailRef.Source) &&
+//@        destHeightDiffs[settleFailRef.Source] == destHeights
+//@   site mapupdate destHeightDiffs: assert arg(key) == settleFailRef.Source && !has(destHeightDiffs, settleFailRef.Source)
+//@   site lookup destHeightDiffs: assert arg(key) == settleFailRef.Source
+//@   site lookup destHeights: assert arg(key) == settleFailRef.Height
+//@   site call makeLogKey: assert arg(0) == ret(ToUint64)
+//@   site call ToUint64: assert arg(0) == dest
+//@   site call NestedReadWriteBucket: assert arg(0) == ret(ReadWriteBucket)
+//@   site call ackSettleFailsAtHeight: assert arg(destBkt) == ret(NestedReadWriteBucket) && ret(NestedReadWriteBucket) != nil &&
+//@        arg(height) == height && arg(indexes) == indexes
+//@
+//@ func ackSettleFailsAtHeight
+//@   props C08
+//@   loop * havoc
+//@   site call makeLogKey: assert arg(0) == height
+//@   site call NestedReadWriteBucket: assert arg(0) == destBkt
+//@   site call Get: assert arg(0) == ret(NestedReadWriteBucket) && arg(key) == settleFailFilterKey
+//@   site call Set: assert arg(1) == index && ret(Decode) == nil
+//@   site call Put: assert arg(0) == ret(NestedReadWriteBucket) && arg(key) == settleFailFilterKey && ret(Encode) == nil && arg(value) == ret(Bytes)
+//@
+//@ func ackAddHtlcsAtHeight
+//@   props C08
+//@   loop * havoc
+//@   site call makeLogKey: assert arg(0) == height
+//@   site call NestedReadWriteBucket: assert arg(0) == sourceBkt
+//@   site call Get: assert arg(0) == ret(NestedReadWriteBucket) && arg(key) == ackFilterKey
+//@   site call Set: assert arg(1) == index && ret(Decode) == nil
+//@   site call Put: assert arg(0) == ret(NestedReadWriteBucket) && arg(key) == ackFilterKey && ret(Encode) == nil && arg(value) == ret(Bytes)
+//@
+//@ func (p *ChannelPackager) SetFwdFilter
+//@   props C08
+//@   site call ToUint64: assert arg(0) == p.source
+//@   site call makeLogKey nth 0: assert arg(0) == ret(ToUint64)
+//@   site call makeLogKey nth 1: assert arg(0) == height
+//@   site call Encode: assert arg(0) == fwdFilter && ret(Get) == nil
+//@   site call Put: assert arg(0) == ret(NestedReadWriteBucket, 1) && arg(key) == fwdFilterKey && ret(Encode) == nil && ret(Get) == nil &&
+//@        arg(value) == ret(Bytes)
+//@   site call Get: assert arg(0) == ret(NestedReadWriteBucket, 1) && arg(key) == fwdFilterKey
+//@
+//@ func (p *ChannelPackager) RemovePkg
+//@   props C08
+//@   site call ToUint64: assert arg(0) == p.source
+//@   site call makeLogKey nth 0: assert arg(0) == ret(ToUint64)
+//@   site call makeLogKey nth 1: assert arg(0) == height
+//@   site call DeleteNestedBucket: assert arg(0) == ret(NestedReadWriteBucket)
